@@ -953,3 +953,615 @@ def json_row(rep, lib):
         r.ok("JsonProcess::process/value", "self.printer.print_something(&mut buffer, &context.build())", p.where())
     else:
         r.bad("JsonProcess::process/value", "the text is not self.printer's rendering of context.build()", p.where())
+
+
+# ====================================================================== text / csv printer (C15)
+
+TOPT = "output_style::TextOutputOptions"
+TPRN = "output_style::TextPrinter"
+TPRO = "output_style::TextProcess"
+
+
+def field_index(lib, adt, name):
+    a = lib.adts.get(adt)
+    if not a:
+        return None
+    for i, f in enumerate(a["variants"][0]["fields"]):
+        if f["name"] == name:
+            return i
+    return None
+
+
+def fpath(lib, *steps):
+    """("f0","f3") projection for a chain of (adt, field name) steps; None if any is missing."""
+    out = []
+    for adt, name in steps:
+        i = field_index(lib, adt, name)
+        if i is None:
+            return None
+        out.append("f%d" % i)
+    return tuple(out)
+
+
+def write_args(b, w):
+    """Argument::new_* calls that belong to the same write!/writeln! as the write_fmt call w."""
+    return [c for c in b.calls if is_fmt_arg(c) and c.loc.get("line") == w.loc.get("line")
+            and c.loc.get("col") == w.loc.get("col") and c.loc.get("file") == w.loc.get("file")]
+
+
+def _is_self_field(atoms, path):
+    """Some origin is exactly (a projection below) self.<path>."""
+    return any(a[0] == "arg" and a[1] == 1 and tuple(p for p in a[2] if not str(p).startswith("dc"))[:len(path)] == path
+               for a in atoms)
+
+
+def _only_self_field(atoms, path):
+    core = [a for a in atoms if a[0] in ("arg", "call", "agg", "local", "const")]
+    return bool(core) and all(a[0] == "arg" and a[1] == 1 and
+                              tuple(p for p in a[2] if not str(p).startswith("dc"))[:len(path)] == path for a in core)
+
+
+def csv_preset(rep, lib):
+    r = rep.rule("C15-CSV-PRESET", "the csv preset is RFC 4180 quoting: fields separated by a comma (plus blanks), "
+                 "strings enclosed in the same quote character `\"` on both sides, exactly that character escaped by "
+                 "doubling it, a header row, True/False/null keywords and an empty field for an absent value",
+                 floor=9, analysis="A8 literals of the aggregate built in TextOutputOptions::csv (A4 provenance of each "
+                                   "field operand)")
+    b = lib.bodies.get(TOPT + "::csv")
+    if b is None:
+        r.missing(TOPT + "::csv")
+        return
+    aggs = [(bb, idx, rv) for bb, idx, place, rv, _ in b.assignments()
+            if rv["k"] == "agg" and rv.get("adt") == TOPT and place["l"] == 0]
+    if len(aggs) != 1:
+        r.missing("the single aggregate returned by csv() (found %d)" % len(aggs))
+        return
+    rv = aggs[0][2]
+    pr = Prov(b, ())
+    vals = {}
+
+    def strconst(o):
+        """String value of an operand that is `<literal>.to_string()` / String::from(literal) / .into()."""
+        for a in pr.origins(o):
+            if a[0] == "call":
+                c = b.call_at[a[1]]
+                n = (c.callee or "") + "|" + (c.name or "")
+                if ("to_string" in n or "From::from" in n or "Into::into" in n or "to_owned" in n) and c.args:
+                    for x in pr.origins(c.args[0]):
+                        if x[0] == "const":
+                            return rust_str(x[1])
+        return None
+    vec_elems = []
+    for bb, idx, place, rv2, s in b.assignments():
+        if rv2["k"] == "agg" and rv2.get("agg") == "array" and any("macro:vec" in e for e in s["loc"].get("exp", [])):
+            vec_elems.append([strconst(o) for o in rv2["ops"]])
+    for name, o in zip(rv["fields"], rv["ops"]):
+        ty = o.get("ty") or (o.get("place") or {}).get("ty", "")
+        if o.get("k") == "const":
+            vals[name] = bool(o.get("int")) if o.get("ty") == "bool" else o.get("s")
+        elif ty.startswith("std::vec::Vec<"):
+            vals[name] = vec_elems[0] if len(vec_elems) == 1 else None
+        elif ty.startswith("std::option::Option<"):
+            at = pr.origins(o)
+            none = any(a[0] == "agg" and b.agg_at_ok(a) for a in at) if hasattr(b, "agg_at_ok") else None
+            nn = [rvx for bb, idx, place, rvx, _ in b.assignments() if place["l"] == o["place"]["l"]]
+            vals[name] = "None" if nn and nn[0]["k"] == "agg" and nn[0].get("variant_name") == "None" else "Some/unknown"
+        else:
+            vals[name] = strconst(o)
+    r.note("csv preset literals: %r" % vals)
+    w = b.where()
+    q = vals.get("string_prefix")
+
+    def chk(key, cond, okmsg, badmsg):
+        if cond:
+            r.ok(key, okmsg, w)
+        else:
+            r.bad(key, badmsg, w)
+    sep = vals.get("items_seperator")
+    chk("csv/items_seperator", isinstance(sep, str) and sep[:1] == "," and not sep[1:].strip(" ") and "\n" not in sep,
+        "%r" % sep, "the field separator is %r, RFC 4180 wants a comma (optionally followed by blanks)" % sep)
+    chk("csv/string_prefix", q == '"', "%r" % q, "strings are opened with %r instead of `\"`" % q)
+    chk("csv/string_postfix", vals.get("string_postfix") == q and q is not None, "%r" % vals.get("string_postfix"),
+        "strings are closed with %r but opened with %r" % (vals.get("string_postfix"), q))
+    esc = vals.get("escape_sequance")
+    table = None
+    if isinstance(esc, list) and all(isinstance(e, str) and e for e in esc):
+        table = {e[0]: e[1:] for e in esc}
+    chk("csv/escape_sequance", table is not None and q is not None and table == {q: q + q},
+        "%r -> %r" % (q, (q or "") * 2),
+        "the escape table is %r; RFC 4180 escapes exactly the quote character %r, by doubling it"
+        % (table if table is not None else esc, q))
+    chk("csv/headers", vals.get("headers") is True, "true", "the csv preset does not write the header row")
+    chk("csv/null_keyword", vals.get("null_keyword") == "null", "null", "null is written as %r" % vals.get("null_keyword"))
+    chk("csv/true_keyword", vals.get("true_keyword") == "True", "True", "true is written as %r" % vals.get("true_keyword"))
+    chk("csv/false_keyword", vals.get("false_keyword") == "False", "False",
+        "false is written as %r" % vals.get("false_keyword"))
+    chk("csv/missing_value_keyword", vals.get("missing_value_keyword") == "None", "None (empty field)",
+        "an absent value is not an empty field in csv")
+
+
+def text_escape_table(rep, lib):
+    r = rep.rule("C15-ESCAPE-TABLE", "the text printer's escape table maps the first character of every "
+                 "--escape-sequance entry to the rest of that entry", floor=2,
+                 analysis="A4 provenance of the two arguments of HashMap::insert in From<TextOutputOptions> for TextPrinter")
+    name = "<%s as std::convert::From<%s>>::from" % (TPRN, TOPT)
+    b = lib.bodies.get(name)
+    if b is None:
+        r.missing(name)
+        return
+    ins = [c for c in b.calls if (c.name or "").endswith("HashMap::<K, V, S>::insert") or
+           "HashMap::<char, std::string::String>::insert" in (c.full or "")]
+    outer = [c for c in b.calls if (c.callee or "") == "std::iter::Iterator::next" and "Chars" not in (c.full or "")
+             and b.in_loop(c.bb)]
+    chars = [c for c in b.calls if "Chars" in (c.full or "") and (c.callee or "") == "std::iter::Iterator::next"]
+    if len(ins) != 1 or len(outer) != 1 or len(chars) != 1:
+        r.missing("one insert, one loop over the entries, one chars().next() (found %d/%d/%d)"
+                  % (len(ins), len(outer), len(chars)))
+        return
+    pr = Prov(b, common.LOOK + ("ToString>::to_string", "Deref>::deref", "str>::chars", "ToOwned>::to_owned",
+                                "String>::from", "From>::from"))
+    k = pr.origins(ins[0].args[1])
+    v = pr.origins(ins[0].args[2])
+    key_ok = any(a[0] == "call" and a[1] == chars[0].bb for a in k) and \
+        any(a[0] == "call" and a[1] == outer[0].bb for a in pr.origins(chars[0].args[0]))
+    if key_ok:
+        r.ok("insert/key", "first character of the entry", ins[0].where())
+    else:
+        r.bad("insert/key", "the escaped character is not the first character of the entry", ins[0].where())
+    idx = [b.call_at[a[1]] for a in v if a[0] == "call" and "Index" in (b.call_at[a[1]].full or "")]
+    val_ok = False
+    if len(idx) == 1:
+        base = pr.origins(idx[0].args[0])
+        rng = pr.origins(idx[0].args[1])
+        one = any(a[0] == "const" and a[1].startswith("1_") for a in rng) or any(
+            a[0] == "agg" and [o.get("int") for o in b.stmts(a[1])[a[2]]["rv"]["ops"]] == [1] for a in rng)
+        val_ok = any(a[0] == "call" and a[1] == outer[0].bb for a in base) and one and \
+            "RangeFrom" in (idx[0].full or "")
+    if val_ok:
+        r.ok("insert/value", "entry[1..]", ins[0].where())
+    else:
+        r.bad("insert/value", "the replacement text is not the rest of the entry after its first character",
+              ins[0].where())
+
+
+def text_string_writer(rep, lib):
+    r = rep.rule("C15-STRING", "TextPrinter::print_string writes the configured prefix, then for every character "
+                 "either its escape-table replacement or the character itself (looked up by that very character), "
+                 "then the configured postfix; nothing else, and nothing of the string bypasses the loop", floor=6,
+                 analysis="A5 partial evaluation of the character loop with the table lookup seeded found / not found; "
+                          "A4 provenance of prefix, postfix and lookup key; A2 dominance")
+    b = lib.bodies.get(TEXTP + "print_string")
+    if b is None:
+        r.missing(TEXTP + "print_string")
+        return
+    nexts = [c for c in b.calls if (c.full or "").startswith("<std::str::Chars<'_> as std::iter::Iterator>::next")]
+    gets = [c for c in b.calls if "HashMap" in (c.full or "") and (c.name or "").endswith("::get")]
+    if len(nexts) != 1 or not b.in_loop(nexts[0].bb) or len(gets) != 1:
+        r.missing("`for ch in value.chars()` with one escape-table lookup (found %d / %d)" % (len(nexts), len(gets)))
+        return
+    site, get = nexts[0], gets[0]
+    pr = Prov(b, common.LOOK)
+    for found in (True, False):
+        def model(c, av, envv, pe, found=found):
+            if c.bb == site.bb:
+                return (True, some(("i", 0x41)))
+            if c.bb == get.bb:
+                return (True, some(("rv", ("s", "<ESC>"))) if found else NONE)
+            return None
+        tr = trace(lib, b, start=site.bb, stop={site.bb}, model=model)
+        key = "print_string[%s]" % ("escaped" if found else "plain")
+        want = "<ESC>" if found else "A"
+        if not tr.deterministic:
+            r.bad(key, "what is written depends on something other than the table lookup (fork at bb%d)" % tr.fork,
+                  b.where(site.bb))
+        elif tr.text() != want:
+            r.bad(key, "for a character %s the loop writes %r, expected %s" % (
+                "with a table entry" if found else "without a table entry", tr.text(),
+                "exactly the table entry" if found else "exactly the character"), b.where(site.bb))
+        else:
+            r.ok(key, "writes %s" % ("the table entry" if found else "the character"), b.where(site.bb))
+    esc = fpath(lib, (TPRN, "escape_sequandes"))
+    ka = pr.origins(get.args[1])
+    ra = pr.origins(get.args[0])
+    if any(a[0] == "call" and a[1] == site.bb for a in ka) and esc and _is_self_field(ra, esc):
+        r.ok("print_string/lookup", "self.escape_sequandes.get(&ch)", get.where())
+    else:
+        r.bad("print_string/lookup", "the escape table is not looked up by the current character in "
+              "self.escape_sequandes", get.where())
+    from rules.pipeline_rules import non_error_escape
+    ws = [c for c in b.calls if is_write_fmt(c)]
+    pre = [c for c in ws if b.dominates(c.bb, site.bb) and not b.in_loop(c.bb)]
+    post = [c for c in ws if not b.dominates(c.bb, site.bb) and not b.in_loop(c.bb)]
+    for nm, lst, fld in (("prefix", pre, "string_prefix"), ("postfix", post, "string_postfix")):
+        path = fpath(lib, (TPRN, "options"), (TOPT, fld))
+        okk = False
+        if len(lst) == 1 and path:
+            args = write_args(b, lst[0])
+            site_f = fmt_site(lib, lst[0])
+            if len(args) == 1 and site_f and [("ph" in p) for p in site_f["pieces"]] == [True]:
+                okk = _only_self_field(pr.origins(args[0].args[0]), path)
+        if nm == "postfix" and okk:
+            okk = not non_error_escape(b, [lst[0].bb], start=site.bb)
+        if okk:
+            r.ok("print_string/" + nm, "self.options.%s, %s" % (fld, "before the loop" if nm == "prefix" else
+                                                               "on every non-error path after the loop"), lst[0].where())
+        else:
+            r.bad("print_string/" + nm, "the string is not %s by exactly one write of self.options.%s"
+                  % ("opened" if nm == "prefix" else "closed on every non-error path", fld), b.where())
+    _string_bypass(r, lib, b, site, {})
+
+
+def text_keywords(rep, lib):
+    r = rep.rule("C15-KEYWORDS", "the text printer writes null / true / false with the configured keyword of that "
+                 "very literal, and an absent value with the missing-value keyword or nothing", floor=4,
+                 analysis="A4 provenance of the single formatted argument + A5 for print_nothing")
+    for m, fld in (("print_null", "null_keyword"), ("print_true", "true_keyword"), ("print_false", "false_keyword")):
+        b = lib.bodies.get(TEXTP + m)
+        if b is None:
+            r.missing(TEXTP + m)
+            continue
+        pr = Prov(b, common.LOOK)
+        ws = [c for c in b.calls if is_write_fmt(c)]
+        path = fpath(lib, (TPRN, "options"), (TOPT, fld))
+        okk = False
+        if len(ws) == 1 and path:
+            args = write_args(b, ws[0])
+            site_f = fmt_site(lib, ws[0])
+            okk = len(args) == 1 and site_f and [("ph" in p) for p in site_f["pieces"]] == [True] and \
+                _only_self_field(pr.origins(args[0].args[0]), path)
+        if okk:
+            r.ok("TextPrinter::" + m, "writes self.options.%s" % fld, b.where())
+        else:
+            r.bad("TextPrinter::" + m, "does not write exactly self.options.%s" % fld, b.where())
+    b = lib.bodies.get(TEXTP + "print_nothing")
+    if b is None:
+        r.missing(TEXTP + "print_nothing")
+        return
+    pr = Prov(b, common.LOOK)
+    path = fpath(lib, (TPRN, "options"), (TOPT, "missing_value_keyword"))
+    ws = [c for c in b.calls if is_write_fmt(c)]
+    good = len(ws) == 1 and path
+    if good:
+        args = write_args(b, ws[0])
+        site_f = fmt_site(lib, ws[0])
+        good = len(args) == 1 and site_f and [("ph" in p) for p in site_f["pieces"]] == [True] and \
+            _is_self_field(pr.origins(args[0].args[0]), path)
+    # the None edge writes nothing and returns Ok
+    if good:
+        tr = trace(lib, b, env={1: ("rv", ("adt", 0, (_opt_env(lib, None),)))})
+        good = tr.deterministic and not tr.writes()
+    if good:
+        r.ok("TextPrinter::print_nothing", "the missing-value keyword when configured, otherwise nothing", b.where())
+    else:
+        r.bad("TextPrinter::print_nothing", "an absent value is not written as the configured missing-value keyword "
+              "(or as nothing when none is configured)", b.where())
+
+
+def _opt_env(lib, _):
+    """TextOutputOptions value with missing_value_keyword = None, everything else unknown."""
+    a = lib.adts.get(TOPT)
+    n = len(a["variants"][0]["fields"])
+    vals = [None] * n
+    vals[field_index(lib, TOPT, "missing_value_keyword")] = NONE
+    return ("adt", 0, tuple(vals))
+
+
+def text_nested(rep, lib):
+    r = rep.rule("C15-NESTED-QUOTED", "arrays and objects are rendered as concise UTF-8 JSON into a buffer and that "
+                 "buffer is written through the text printer's string writer (quoting and escaping applied); nothing "
+                 "else is written", floor=2, analysis="A4 provenance + aggregate constants + A1 callee census")
+    for m, jm in (("print_object", "print_object"), ("print_array", "print_array")):
+        b = lib.bodies.get(TEXTP + m)
+        key = "TextPrinter::" + m
+        if b is None:
+            r.missing(TEXTP + m)
+            continue
+        pr = Prov(b, common.LOOK + ("Deref>::deref",))
+        aggs = [rv for bb, idx, place, rv, _ in b.assignments() if rv["k"] == "agg"
+                and rv.get("adt") == "output_style::JsonOutputOptions"]
+        jp = [c for c in b.calls if (c.name or "") == JSONP + jm]
+        ps = [c for c in b.calls if (c.name or "") == TEXTP + "print_string" or
+              ((c.callee or "").endswith("Print::print_string") and "TextPrinter" in (c.full or ""))]
+        others = [c for c in b.calls if is_write_fmt(c)]
+        consise = _variant_index(lib, "output_style::JsonStyle", "Consise")
+        problem = None
+        if len(aggs) != 1 or len(jp) != 1 or len(ps) != 1:
+            problem = "expected one JsonOutputOptions value, one JSON rendering and one print_string call " \
+                      "(found %d / %d / %d)" % (len(aggs), len(jp), len(ps))
+        elif others:
+            problem = "writes to the output directly"
+        else:
+            ag = aggs[0]
+            named = dict(zip(ag["fields"], ag["ops"]))
+            st = named.get("style", {})
+            u8 = named.get("utf8_strings", {})
+            style_ok = False
+            if st.get("k") == "const":
+                style_ok = st.get("int") == consise
+            else:
+                for a in pr.origins(st):
+                    if a[0] == "agg":
+                        rvv = b.stmts(a[1])[a[2]]["rv"]
+                        style_ok = rvv.get("variant") == consise
+            if not style_ok:
+                problem = "the nested JSON is not rendered in the concise style (whitespace or line breaks inside a field)"
+            elif not (u8.get("k") == "const" and u8.get("int") == 1):
+                problem = "the nested JSON is not rendered with utf8_strings = true"
+            else:
+                buf = pr.origins(jp[0].args[1])
+                txt = pr.origins(ps[0].args[2])
+                val = pr.origins(jp[0].args[2])
+                recv = pr.origins(ps[0].args[0])
+                wr = pr.origins(ps[0].args[1])
+                newb = {a[1] for a in buf if a[0] == "call" and (b.call_at[a[1]].name or "").endswith("String::new")}
+                same = {a[1] for a in txt if a[0] == "call"} & newb
+                if not newb or not same:
+                    problem = "the text handed to print_string is not the buffer the JSON was rendered into"
+                elif not any(a[0] == "arg" and a[1] == 3 for a in val):
+                    problem = "the value rendered is not the value being printed"
+                elif not any(a[0] == "arg" and a[1] == 1 for a in recv) or not any(a[0] == "arg" and a[1] == 2 for a in wr):
+                    problem = "print_string is not called on self with the output"
+                elif not b.dominates(jp[0].bb, ps[0].bb):
+                    problem = "the buffer is written before it is filled"
+        if problem:
+            r.bad(key, problem, b.where())
+        else:
+            r.ok(key, "concise utf8 JSON -> buffer -> self.print_string", ps[0].where())
+
+
+def _text_write_kind(lib, b, pr, w, bufs):
+    """Classify a write_fmt on the output by what it formats: 'V' (a buffer filled by the printer), 'S' (item
+    separator), 'L' (line separator), or a description of anything else."""
+    site_f = fmt_site(lib, w)
+    if site_f is None:
+        return "?template"
+    kinds = []
+    args = write_args(b, w)
+    sep = fpath(lib, (TPRO, "printer"), (TPRN, "options"), (TOPT, "items_seperator"))
+    line = fpath(lib, (TPRO, "line_seperator"))
+    ai = 0
+    for p in site_f["pieces"]:
+        if "lit" in p:
+            kinds.append("lit:%r" % p["lit"])
+            continue
+        if p["ph"] != "Display" or p["width"] or p["precision"] or ai >= len(args):
+            kinds.append("?format")
+            continue
+        at = pr.origins(args[ai].args[0])
+        ai += 1
+        if sep and _only_self_field(at, sep):
+            kinds.append("S")
+        elif line and _only_self_field(at, line):
+            kinds.append("L")
+        elif bufs and [a for a in at if a[0] in ("arg", "call", "agg", "local", "const")] and \
+                all(a[0] == "call" and a[1] in bufs for a in at if a[0] in ("arg", "call", "agg", "local", "const")):
+            kinds.append("V")
+        else:
+            kinds.append("?data:" + ",".join(sorted({a[0] for a in at})))
+    return "".join(k if len(k) == 1 else "<" + k + ">" for k in kinds)
+
+
+def _printer_buffers(b, pr):
+    """String::new() calls whose String is the output argument of a Print::print* call (the row / field buffers)."""
+    out = set()
+    for c in b.calls:
+        if (c.callee or "").startswith("output_style::Print::print") and len(c.args) >= 2:
+            for a in pr.origins(c.args[1]):
+                if a[0] == "call" and (b.call_at[a[1]].name or "").endswith("String::new"):
+                    out.add(a[1])
+    return out
+
+
+def text_rows(rep, lib):
+    r = rep.rule("C15-ROW", "a text/csv row is written as field (separator field)* line-separator, every field "
+                 "being the printer's own rendering of that list element (quoting applied); header and data rows "
+                 "go through the same print_list; nothing reaches the output that did not pass the printer; the "
+                 "header-less error is raised before any write", floor=8,
+                 analysis="A5 partial evaluation of print_list for 1..3 fields (token grammar) + A4 provenance "
+                          "classification of every write in TextProcess + A1 callers + A2 dominance")
+    pl = lib.bodies.get(TPRO + "::print_list")
+    st = lib.bodies.get("<%s as processor::Process>::start" % TPRO)
+    pc = lib.bodies.get("<%s as processor::Process>::process" % TPRO)
+    if not pl or not st or not pc:
+        r.missing("TextProcess::{print_list, start, process}")
+        return
+    # 1. classification of every output write in the three bodies
+    members = sorted((n.rsplit("::", 1)[-1] if "closure" not in n else n.split(TPRO)[-1].lstrip(":> "), bd)
+                     for n, bd in lib.bodies.items()
+                     if n.startswith(TPRO + "::") or n.startswith("<%s as " % TPRO))
+    for nm, b in members:
+        pr = Prov(b, common.LOOK + ("Deref>::deref", "DerefMut>::deref_mut", "RefCell::<T>::borrow_mut"))
+        prints = _printer_buffers(b, pr)
+        for n, w in enumerate([c for c in b.calls if is_write_fmt(c)]):
+            kind = _text_write_kind(lib, b, pr, w, prints)
+            key = "TextProcess::%s#write[%d]" % (nm, n)
+            if "?" in kind or "lit" in kind:
+                r.bad(key, "writes %s to the output: data that did not pass the text printer (no quoting / escaping "
+                      "applied) or a literal" % kind, w.where())
+            else:
+                r.ok(key, "writes %s" % kind, w.where())
+    # 2. token grammar of print_list
+    li = field_index(lib, TPRO, "length")
+    nxt = [c for c in pl.calls if (c.callee or "") == "std::iter::Iterator::next" and pl.in_loop(c.bb)]
+    if li is None or len(nxt) != 1:
+        r.missing("TextProcess.length / the element loop of print_list")
+    else:
+        nfields = len(lib.adts[TPRO]["variants"][0]["fields"])
+        pr = Prov(pl, common.LOOK + ("Deref>::deref", "DerefMut>::deref_mut", "RefCell::<T>::borrow_mut"))
+        prints = _printer_buffers(pl, pr)
+        enumerated = "Option<(usize," in nxt[0].dest.get("ty", "").replace(" ", "")
+        for k in (1, 2, 3):
+            selfv = [None] * nfields
+            selfv[li] = ("i", k)
+            toks = []
+
+            def model(c, av, envv, pe, k=k):
+                if c.bb == nxt[0].bb:
+                    i = envv.get(-7, ("i", 0))[1]
+                    envv[-7] = ("i", i + 1)
+                    if i >= k:
+                        return (True, NONE)
+                    return (True, some(("adt", 0, (("i", i), ("i", 7000 + i))) if enumerated else ("i", 7000 + i)))
+                if (c.callee or "").startswith("output_style::Print::print"):
+                    return (True, OK(UNIT))
+                if (c.name or "").endswith("::len"):
+                    return (True, ("i", k))
+                return None
+            tr = trace(lib, pl, env={1: ("rv", ("adt", 0, tuple(selfv)))}, model=model, max_states=60000)
+            key = "print_list/grammar[%d]" % k
+            if not tr.deterministic:
+                r.bad(key, "the sequence of writes depends on something other than the number of fields "
+                      "(fork at bb%d): unrecognised idiom" % tr.fork, pl.where())
+                continue
+            seq = []
+            for e in tr.events:
+                if e[0] == "write":
+                    seq.append(_text_write_kind(lib, pl, pr, e[1], prints))
+                elif e[0] == "call" and (e[1].callee or "").startswith("output_style::Print::print"):
+                    seq.append("p")
+            got = "".join(seq)
+            want = "S".join(["pV"] * k) + "L"
+            if got == want:
+                r.ok(key, "writes %s (p = printer.print into the buffer, V = buffer, S = separator, L = line end)"
+                     % want, pl.where())
+            else:
+                r.bad(key, "for %d field(s) a row is written as %r, expected %r (p = printer.print into the buffer, "
+                      "V = buffer, S = item separator, L = line separator)" % (k, got, want), pl.where())
+        # the element printed is the iterated one, by self.printer
+        pcs = [c for c in pl.calls if (c.callee or "").startswith("output_style::Print::print")]
+        okp = len(pcs) == 1
+        if okp:
+            pth = fpath(lib, (TPRO, "printer"))
+            okp = _is_self_field(pr.origins(pcs[0].args[0]), pth) and \
+                any(a[0] == "call" and a[1] == nxt[0].bb for a in pr.origins(pcs[0].args[2])) and \
+                pcs[0].method() == "print"
+        if okp:
+            r.ok("print_list/element", "self.printer.print(&mut buffer, element)", pcs[0].where())
+        else:
+            r.bad("print_list/element", "a field is not self.printer's rendering (Print::print, which also handles "
+                  "absent values) of the iterated element", pl.where())
+    # 3. who calls print_list, and with what
+    cg_callers = []
+    for name, b in lib.bodies.items():
+        for c in b.calls:
+            if (c.name or "") == TPRO + "::print_list":
+                cg_callers.append((name, b, c))
+    if not cg_callers:
+        r.bad("print_list/callers", "print_list is never called", pl.where())
+    else:
+        good = True
+        for n, b, c in cg_callers:
+            pr = Prov(b, common.LOOK + ("Deref>::deref",))
+            at = pr.origins(c.args[1])
+            if not any(a[0] == "call" and (b.call_at[a[1]].name or "").endswith("::to_list") for a in at):
+                good = False
+                r.bad("print_list/callers", "%s prints a list that is not Titles::to_list() / Context::to_list()"
+                      % n.rsplit("::", 1)[-1], c.where())
+        if good:
+            r.ok("print_list/callers", "%d caller(s), each printing a to_list() of titles or of the row's results"
+                 % len(cg_callers), pl.where())
+    # 4. header logic in start: decided for headers in {true,false} x titles in {0, 2}
+    hp = fpath(lib, (TPRO, "printer"), (TPRN, "options"), (TOPT, "headers"))
+    if hp is None:
+        r.missing("TextOutputOptions.headers")
+        return
+    nfields = len(lib.adts[TPRO]["variants"][0]["fields"])
+    for headers in (True, False):
+        for ntitles in (0, 2):
+            optv = [None] * len(lib.adts[TOPT]["variants"][0]["fields"])
+            optv[field_index(lib, TOPT, "headers")] = ("b", headers)
+            prnv = [None] * len(lib.adts[TPRN]["variants"][0]["fields"])
+            prnv[field_index(lib, TPRN, "options")] = ("adt", 0, tuple(optv))
+            selfv = [None] * nfields
+            selfv[field_index(lib, TPRO, "printer")] = ("adt", 0, tuple(prnv))
+
+            def model(c, av, envv, pe, ntitles=ntitles):
+                if (c.name or "").endswith("Titles::len"):
+                    return (True, ("i", ntitles))
+                if (c.name or "") == TPRO + "::print_list":
+                    return (True, OK(("adt", 0, ())))
+                return None
+            tr = trace(lib, st, env={1: ("rv", ("adt", 0, tuple(selfv)))}, model=model)
+            key = "start[headers=%s,titles=%d]" % (str(headers).lower(), ntitles)
+            printed = [e for e in tr.events if e[0] == "call" and (e[1].name or "") == TPRO + "::print_list"]
+            rets = tr.res.returns
+            is_err = bool(rets) and all(v is not None and v[0] == "adt" and v[1] == 1 for _, v in rets)
+            is_ok = bool(rets) and all(v is not None and v[0] == "adt" and v[1] == 0 for _, v in rets)
+            if not tr.deterministic:
+                r.bad(key, "unrecognised idiom (fork at bb%d)" % tr.fork, st.where())
+            elif headers and ntitles == 0:
+                if is_err and not printed and not tr.writes():
+                    r.ok(key, "rejected with an error before anything is written", st.where())
+                else:
+                    r.bad(key, "a header row is required but there is no selection: this must be an error raised "
+                          "before any write", st.where())
+            elif headers:
+                if is_ok and len(printed) == 1 and not tr.writes():
+                    r.ok(key, "one header row through print_list", st.where())
+                else:
+                    r.bad(key, "the header row is not written exactly once through print_list", st.where())
+            else:
+                if is_ok and not printed and not tr.writes():
+                    r.ok(key, "no header row", st.where())
+                else:
+                    r.bad(key, "without --headers nothing may be written at start", st.where())
+    # length is the number of titles
+    pr = Prov(st, common.LOOK)
+    lens = [(bb, idx, rv) for bb, idx, place, rv, _ in st.assignments()
+            if place["l"] == 1 and tuple(p for p in place["p"] if p != "deref") == ("f%d" % li,)]
+    if len(lens) == 1 and any(a[0] == "call" and (st.call_at[a[1]].name or "").endswith("Titles::len")
+                              for a in pr._rv_origins(lens[0][2], (), lens[0][0], lens[0][1])):
+        r.ok("start/length", "self.length = titles.len()", st.where())
+    else:
+        r.bad("start/length", "the field count is not set to the number of titles", st.where())
+
+
+def selection_width(rep, lib, rid="C15-WIDTH"):
+    r = rep.rule(rid, "every --select stage adds exactly one title at start and forwards, on every path, the context "
+                 "extended by exactly one result for that title (present or absent), so titles and row fields stay "
+                 "in lockstep", floor=2, analysis="A4 flow-sensitive provenance of the arguments of self.next.start / "
+                                                  "self.next.process")
+    st = None
+    for s in common.stages(lib):
+        if s.short == "SelectionProcess":
+            st = s
+    if st is None:
+        r.missing("SelectionProcess")
+        return
+    name_f = field_index(lib, st.struct, "name")
+    getter_f = field_index(lib, st.struct, "getter")
+    for m, ext in (("start", "Titles::with_title"), ("process", "Context::with_result")):
+        b = st.bodies.get(m)
+        if b is None:
+            r.missing("SelectionProcess::" + m)
+            continue
+        pr = Prov(b, common.LOOK)
+        calls = st.next_calls(b, m)
+        if not calls:
+            r.bad("SelectionProcess::" + m, "never calls self.next.%s" % m, b.where())
+            continue
+        bad = None
+        for c in calls:
+            at = pr.call_arg_origins(c, 1)
+            core = [a for a in at if a[0] in ("arg", "call")]
+            via = [a for a in core if a[0] == "call" and (b.call_at[a[1]].name or "").endswith(ext)]
+            if not core or len(via) != len(core):
+                bad = (c, "self.next.%s can be handed a value that did not pass %s (the incoming one, unextended)"
+                       % (m, ext))
+                break
+            for a in via:
+                w = b.call_at[a[1]]
+                nm = pr.origins(w.args[1])
+                if not any(x[0] == "arg" and x[1] == 1 and ("f%d" % name_f) in x[2] for x in nm):
+                    bad = (w, "%s is not given self.name" % ext)
+                if m == "process":
+                    val = pr.origins(w.args[2])
+                    gets = [x for x in val if x[0] == "call" and b.call_at[x[1]].trait == common.GET_TRAIT]
+                    if not gets:
+                        bad = (w, "the recorded result is not the value of self.getter.get(..)")
+                    elif any(x[0] == "const" for x in val) and not gets:
+                        bad = (w, "a constant is recorded instead of the getter's value")
+        if bad:
+            r.bad("SelectionProcess::" + m, bad[1], bad[0].where())
+        else:
+            r.ok("SelectionProcess::" + m, "every self.next.%s receives %s(self.name, ..)" % (m, ext), calls[0].where())
